@@ -212,13 +212,28 @@ impl DebugInformation {
         debugee: &Debugee,
         ecx: &ExplorationContext,
     ) -> Result<RelocatedAddress, Error> {
+        let pc = ecx.location().global_pc.into();
         let mut ucx = Box::new(UnwindContext::new());
-        let row = self.eh_frame.unwind_info_for_address(
+        let mut debug_frame_ucx = Box::new(UnwindContext::new());
+        let row = match self.eh_frame.unwind_info_for_address(
             &self.bases,
             &mut ucx,
-            ecx.location().global_pc.into(),
+            pc,
             EhFrame::cie_from_offset,
-        )?;
+        ) {
+            // like the unwinder: code built without unwind tables is described by .debug_frame
+            Err(gimli::Error::NoUnwindInfoForAddress) if self.debug_frame.is_some() => self
+                .debug_frame
+                .as_ref()
+                .expect("checked")
+                .unwind_info_for_address(
+                    &self.bases,
+                    &mut debug_frame_ucx,
+                    pc,
+                    DebugFrame::cie_from_offset,
+                )?,
+            row => row?,
+        };
         // the row belongs to the frame in focus: so must the registers it is applied to
         let mut registers = DwarfRegisterMap::from(RegisterMap::current(ecx.pid_on_focus())?);
         debugee.restore_registers_at_frame(ecx.pid_on_focus(), &mut registers, ecx.frame_num())?;
